@@ -177,9 +177,14 @@ CLAIMED = {
             "of `signapp key` with the independent secp256k1 binding over the Keccak digest of the specified "
             "message is part of the C19 stream.",
             "Keccak-256 uninterpreted; int() leniencies on iteration strings not modelled"),
-    "C18": ("Lean theorems: the model's PIN policy is the property's (8 alphanumerics with a letter; alphanumerics "
-            "only when any-PIN is allowed); a policy-violating PIN given to onboard stops it before the device is "
-            "contacted; the confirmation loop proceeds only on an explicit yes. The models of do_onboard (up to "
+    "C18": ("Lean theorems, for every device behaviour and every operator script: if do_onboard sends any of SEED, "
+            "SEND_PIN, WIPE or SGX_ONBOARD then the device checks had handed over with bootloader mode, a matching "
+            "echo and 'not onboarded' (as reported in that run), the operator had said yes, and the PIN sent is "
+            "policy-compliant (onboard_destructive_only_after_checks); if do_unlock sends any PIN-bearing message "
+            "then the checks had handed over with bootloader mode, onboarded and a matching echo "
+            "(unlock_pin_only_after_checks); the model's PIN policy is the property's (8 alphanumerics with a "
+            "letter; alphanumerics only when any-PIN is allowed); a policy-violating PIN given to onboard stops "
+            "it before the device is contacted; the confirmation loop proceeds only on an explicit yes. The models of do_onboard (up to "
             "the device being onboarded), do_unlock, do_changepin and do_get_pubkeys with both dongle classes are "
             "tied to the real functions (Platform.set, scripted stdin/getpass/os.urandom) by correspondence over "
             "the exhaustive state x operator grid; the oracle Spec.C18.c18 checks on the implementation's trace: "
@@ -187,8 +192,9 @@ CLAIMED = {
             "the seed messages carry exactly the generator's 32 bytes, indexed, once; unlock only for an onboarded "
             "bootloader; PIN policy unless any-PIN; public keys asked for the six documented paths and written "
             "as the device returned them.",
-            "partial: precondition theorems over the whole command models are decided by the exhaustive grid "
-            "(correspondence + oracle); seed freshness is not a theorem"),
+            "'when the preconditions hold the operation is carried out', the change-PIN preconditions and the "
+            "public-key output are decided by the exhaustive grid (correspondence + oracle); seed freshness is "
+            "not a theorem"),
     "C19": ("Lean theorems about ledgerblue's Intel-HEX parser as used by compute_app_hash: for every file the "
             "parser accepts, the areas it returns are sorted by start address (sorted insertion invariant, by "
             "induction over the records), so the hash is over the data areas in address order whatever the order "
